@@ -5,7 +5,7 @@
 wt=$1; n=$2; id=$3; prop=$4; filt=$5
 out=/verif/seeded/$id; mkdir -p $out
 export CARGO_TARGET_DIR=$wt/target CARGO_NET_OFFLINE=true
-cd $wt && git checkout -q -- . && git clean -fdq tests/ examples/ 2>/dev/null
+cd $wt && git checkout -q -- . && git clean -fdq tests/ examples/ 2>/dev/null; git checkout -q --detach main
 [ -f $out/patch.diff ] || cp $wt/out/$n/patch.diff $out/patch.diff; cp $wt/out/$n/demo.rs $out/demo.rs; cp $wt/out/$n/meta.json $out/agent_meta.json
 log=$out/confirm.log; : > $log
 cp $out/demo.rs tests/zz_seed_demo.rs
